@@ -6,6 +6,7 @@ package pokertable
 // C02 O-4 (index translation).
 
 import (
+	"github.com/weedbox/pokerface"
 	"github.com/weedbox/pokertable/internal/verifrt"
 )
 
@@ -110,11 +111,11 @@ func VH_C10_Action() {
 		legit = playing && gi >= 0 && vhAllowed(w, gi, Action_Ready)
 	case vhActPay:
 		legit = playing && gi >= 0 && vhAllowed(w, gi, Action_Pay) && knownEvent
+	case vhActPass:
+		legit = playing && isTurn && vhAllowed(w, gi, "pass")
 	default:
 		legit = playing && isTurn
 	}
-	// known finding C10_PASS: pass by the current player when pass is not allowed
-	verifrt.KF("C10_PASS", act == vhActPass && playing && isTurn && !vhAllowed(w, gi, "pass"))
 	// the property additionally wants the action kind to be allowed for play moves
 	strict := legit
 	if act <= vhActPass {
@@ -271,6 +272,95 @@ func VH_C14_Action() {
 		if act != vhActFold || newRound != "" {
 			verifrt.Assert(vhTableStatsInv(te), "statistics invariant preserved: counters consistent, every did-flag implies its chance flag, at most one 3-bet holder")
 		}
+	}
+	verifrt.Reach("end")
+}
+
+// vhEngineHand: a betting-round hand state under the hand-state invariant P(gs)
+// of DESIGN.md, the current player's allowed actions computed by the real hand
+// engine; the engine's follow-up after an accepted action (next player, pots,
+// next round) is cut off by an empty current event (pokerface Resume is then a
+// no-op), what remains is the engine's acceptance logic for the action.
+func vhEngineHand(m int) *pokerface.GameState {
+	gs := &pokerface.GameState{GameID: "g1"}
+	gs.Meta.Limit = "no"
+	gs.Meta.Blind = pokerface.BlindSetting{SB: verifrt.Int64("blind.sb"), BB: verifrt.Int64("blind.bb")}
+	verifrt.Assume(gs.Meta.Blind.SB >= 0 && gs.Meta.Blind.BB > 0 && gs.Meta.Blind.SB < 1<<40 && gs.Meta.Blind.BB < 1<<40)
+	gs.Status.Round = vhPick("round", []string{GameRound_Preflop, GameRound_Flop, GameRound_Turn, GameRound_River})
+	gs.Status.CurrentEvent = ""
+	gs.Status.CurrentPlayer = verifrt.IntRange("cur", 0, m-1)
+	gs.Status.CurrentRaiser = verifrt.IntRange("raiser", 0, m-1)
+	gs.Status.CurrentWager = verifrt.Int64("curWager")
+	gs.Status.PreviousRaiseSize = verifrt.Int64("prevRaise")
+	gs.Status.MiniBet = gs.Meta.Blind.BB
+	verifrt.Assume(gs.Status.CurrentWager >= 0 && gs.Status.PreviousRaiseSize >= 0 && gs.Status.CurrentWager < 1<<40 && gs.Status.PreviousRaiseSize < 1<<40)
+	verifrt.Assume(gs.Status.CurrentWager == 0 || gs.Status.PreviousRaiseSize > 0)
+	for k := 0; k < m; k++ {
+		p := &pokerface.PlayerState{Idx: k, AllowedActions: []string{}, Positions: []string{}, Combination: &pokerface.CombinationInfo{}}
+		if k == 0 {
+			p.Positions = []string{Position_Dealer}
+		}
+		p.Fold = verifrt.BoolI("fold", k)
+		p.Acted = verifrt.BoolI("acted", k)
+		p.StackSize = verifrt.Int64I("stack", k)
+		p.Wager = verifrt.Int64I("wagerp", k)
+		p.Pot = verifrt.Int64I("pot", k)
+		verifrt.Assume(p.StackSize >= 0 && p.Wager >= 0 && p.Pot >= 0 && p.StackSize < 1<<40 && p.Wager < 1<<40 && p.Pot < 1<<40)
+		verifrt.Assume(p.Wager <= gs.Status.CurrentWager)
+		p.InitialStackSize = p.StackSize + p.Wager
+		p.Bankroll = p.InitialStackSize + p.Pot
+		gs.Players = append(gs.Players, p)
+	}
+	eng := pokerface.NewGameFromState(gs)
+	cur := gs.Status.CurrentPlayer
+	for k := 0; k < m; k++ {
+		if k == cur {
+			gs.Players[k].AllowedActions = eng.GetAvailableActions(eng.Player(k))
+		}
+	}
+	return gs
+}
+
+// VH_C10_ActionEngine: play moves with the real hand engine behind the table.
+func VH_C10_ActionEngine() {
+	n := verifrt.Cfg("n")
+	m := verifrt.Cfg("m")
+	act := verifrt.Cfg("act") // 0..6: fold check call allin bet raise pass
+	w := vhNewWorld(n, verifrt.Cfg("M"), m, true)
+	te := w.te
+	real := NewNativeGameBackend()
+	te.gameBackend = real
+	gs := vhEngineHand(m)
+	w.g.backend = real
+	w.g.gs = gs
+	te.table.State.GameState = gs
+	callerIdx := verifrt.IntRange("caller", 0, n)
+	caller := "stranger"
+	if callerIdx < n {
+		caller = vhIDs[callerIdx]
+	}
+	chips := verifrt.Int64("chips")
+	verifrt.Assume(chips >= 0 && chips < 1<<40)
+	gi := vhExpectedGameIdx(w, callerIdx)
+	playing := te.table.State.Status == TableStateStatus_TableGamePlaying
+	isTurn := gi >= 0 && gs.Status.CurrentPlayer == gi
+	allowedKind := isTurn && vhHasString(gs.Players[gs.Status.CurrentPlayer].AllowedActions, vhActNames[act])
+	snapT := verifrt.Snapshot(te.table)
+	snapG := verifrt.Snapshot(gs)
+
+	err := vhDo(te, act, caller, chips)
+
+	if err == nil {
+		verifrt.Reach("accepted")
+		verifrt.Assert(playing && isTurn, "accepted only from the player whose turn it is, while a hand is being played")
+		verifrt.Assert(allowedKind, "accepted only if the hand currently allows that action for the player")
+		la := te.table.State.LastPlayerGameAction
+		verifrt.Assert(la != nil && la.PlayerID == caller && la.Action == vhActNames[act], "accepted action is published as the last player action")
+	} else {
+		verifrt.Reach("refused")
+		verifrt.Assert(verifrt.SameState(snapT, te.table), "refused action: table unchanged")
+		verifrt.Assert(w.g.gs == gs && verifrt.SameState(snapG, gs), "refused action: hand unchanged")
+		verifrt.Assert(w.rec.actions == 0, "refused action: no event")
 	}
 	verifrt.Reach("end")
 }
